@@ -175,32 +175,7 @@ func c02(c *Ctx) {
 		return callTo("embedded/ahtree.(*AHtree).ResetSize")(in) && fnInPkgs(in.Parent(), pk)
 	}, []string{storePkg + "OpenWith", storeT + "performPrecommit", storeT + "DiscardPrecommittedTxsSince"}, 3)
 
-	// ---- C02.5 chain check while scanning ----------------------------------------------------------
-	r = "C02.5/txreader-chain"
-	if f := c.mustFn(r, "embedded/store.(*TxReader).Read"); f != nil {
-		found := false
-		allInstrs(f, false, func(in ssa.Instruction) {
-			ifi, ok := in.(*ssa.If)
-			if !ok {
-				return
-			}
-			a, pol := normCond(ifi.Cond)
-			if !(strings.Contains(a, "PrevAlh") && strings.Contains(a, " == ")) {
-				return
-			}
-			found = true
-			succ := 1 // mismatch edge: atom false
-			if !pol {
-				succ = 0
-			}
-			q := &pathQ{fn: f, fromEdges: []cfgEdge{{ifi.Block(), succ}}, to: successReturn}
-			c.check(q.bypass() == nil, r, fnName(f)+":chain-mismatch-fails", c.pos(ifi.Cond.Pos()), "PrevAlh/Alh mismatch leaves Read with an error", "a PrevAlh/Alh mismatch can reach a successful return")
-		})
-		if !found {
-			c.fail(r, fnName(f)+":chain-compared", c.pos(f.Pos()), "TxReader.Read no longer compares PrevAlh with the previous Alh")
-		}
-	}
-
+	c02TxReaderChain(c, "C02.5/txreader-chain")
 	// db.CurrentState reports the committed pair
 	if f := c.fn("pkg/database.(*db).CurrentState"); f != nil {
 		c.check(len(sites(f, callTo(storeT+"CommittedAlh"))) > 0, "C02.6/one-alh", fnName(f)+":CommittedAlh", c.pos(f.Pos()), "CurrentState reads CommittedAlh()", "CurrentState does not report CommittedAlh()")
@@ -342,4 +317,33 @@ func c02DiscardGuard(c *Ctx, r string) {
 				"frontier reset to "+v, "frontier reset to unexpected value "+v)
 		}
 	}
+}
+
+// c02TxReaderChain: sequential scans check PrevAlh/Alh chaining (shared by C02 and C09).
+func c02TxReaderChain(c *Ctx, r string) {
+	// ---- C02.5 chain check while scanning ----------------------------------------------------------
+	if f := c.mustFn(r, "embedded/store.(*TxReader).Read"); f != nil {
+		found := false
+		allInstrs(f, false, func(in ssa.Instruction) {
+			ifi, ok := in.(*ssa.If)
+			if !ok {
+				return
+			}
+			a, pol := normCond(ifi.Cond)
+			if !(strings.Contains(a, "PrevAlh") && strings.Contains(a, " == ")) {
+				return
+			}
+			found = true
+			succ := 1 // mismatch edge: atom false
+			if !pol {
+				succ = 0
+			}
+			q := &pathQ{fn: f, fromEdges: []cfgEdge{{ifi.Block(), succ}}, to: successReturn}
+			c.check(q.bypass() == nil, r, fnName(f)+":chain-mismatch-fails", c.pos(ifi.Cond.Pos()), "PrevAlh/Alh mismatch leaves Read with an error", "a PrevAlh/Alh mismatch can reach a successful return")
+		})
+		if !found {
+			c.fail(r, fnName(f)+":chain-compared", c.pos(f.Pos()), "TxReader.Read no longer compares PrevAlh with the previous Alh")
+		}
+	}
+
 }
